@@ -1,6 +1,7 @@
 import SspModel.Lemmas.Pk
 import SspModel.Model.Esc
 import SspModel.Props.C12
+import SspModel.Lemmas.Conserve
 import Mathlib.Algebra.BigOperators.Group.List.Basic
 import Mathlib.Analysis.SpecialFunctions.Sqrt
 /-!
@@ -300,6 +301,10 @@ structure Statement : Prop where
     b.Is md = ∫ x in b.lo..b.hi, (b.n / p1) * x ^ b.a * (1 - √(x / md))
   slopes : ∀ (md B : ℝ) (b : StarBin ℝ), 0 < b.lo → 0 < b.hi → 0 < md →
     B * b.dalphaUnit md = (B * (1 - √(b.hi / md)) - B * (1 - √(b.lo / md))) / (Real.log b.hi - Real.log b.lo)
+  /-- integrated over time: a total number whose rate is (stellar-evolution part, zero when every remnant is retained — C02) +
+      (escape part, equal to the requested rate by `pre_N`/`post_N`) satisfies `N(t1) = N(t0) + ∫ rate` along an exact solution -/
+  integrated : ∀ (Ntot rate : ℝ → ℝ) (t0 t1 : ℝ), t0 ≤ t1 → ContinuousOn rate (Set.Icc t0 t1) →
+    (∀ t ∈ Set.Icc t0 t1, HasDerivAt Ntot (0 + rate t) t) → Ntot t1 = Ntot t0 + ∫ t in t0..t1, rate t
   zero : ∀ (normM : Bool) (t tcc md : ℝ) (stars : List (StarBin ℝ)) (rems : List (ℝ × ℝ)),
     (∀ x ∈ (derivsEsc normM t tcc 0 md stars rems).1, x = 0) ∧
     (∀ x ∈ (derivsEsc normM t tcc 0 md stars rems).2.1, x = 0) ∧
@@ -307,11 +312,13 @@ structure Statement : Prop where
 
 /-- **C03 (partial)**: exact identities of the derivative. Not an identity of the model (and measured instead): for
     norm 'M' after core collapse the mass change *implied by the evolving slopes* equals the rate only to second order
-    in the bins' log-width (the slope rule is a secant). The time-integrated clause needs an exact solution (3.5). -/
+    in the bins' log-width (the slope rule is a secant). The time-integrated clause is `integrated`, for exact solutions. -/
 theorem C03_partial : Statement where
   pre_N := pre_N_sum
   pre_M := pre_M_sum
   pre_uniform := pre_uniform
+  integrated := fun Ntot rate t0 t1 hle hr h =>
+    Conserve.eq_integral_of_rate Ntot rate t0 t1 hle (fun t ht => by simpa using h t ht) hr
   post_N := post_N_sum
   post_M := post_M_sum
   support_star := post_support_star
